@@ -219,7 +219,7 @@ Section GFN.
   Proof.
     intros Hn Hx. set (dim := (2 ^ n)%nat) in *.
     assert (Hdim : 0 < dim) by apply pow2_pos.
-    destruct (idxN (TR:=TR) n x Hx) as [X1 X2]. fold dim in X1, X2.
+    destruct (idxN n x Hx) as [X1 X2]. fold dim in X1, X2.
     rewrite (sumn_ext _ _ (fun j => sumn (dim * dim) (fun y =>
                (kfold o kappa (nth j (isn n) []) (y / dim)%nat (y mod dim)%nat * kfold o rho_mat (nth j (isn n) []) (x / dim)%nat (x mod dim)%nat)
                * vec dim u y))).
@@ -230,7 +230,7 @@ Section GFN.
     - rewrite (sumn_single (dim * dim) x); try assumption.
       + unfold mid. rewrite Nat.eqb_refl. ring.
       + intros k _ Hk. unfold mid. apply Nat.eqb_neq in Hk. rewrite Hk. ring.
-    - intros y Hy. destruct (idxN (TR:=TR) n y Hy) as [Y1 Y2]. fold dim in Y1, Y2.
+    - intros y Hy. destruct (idxN n y Hy) as [Y1 Y2]. fold dim in Y1, Y2.
       rewrite sumn_mul_r. f_equal.
       rewrite <- (isn_length n Hn).
       rewrite (sumn_nth_suml (TR:=TR) (isn n) [] (fun s => kfold o kappa s (y / dim)%nat (y mod dim)%nat * kfold o rho_mat s (x / dim)%nat (x mod dim)%nat)).
@@ -252,3 +252,290 @@ Section GFN.
     - exact Hj.
   Qed.
 End GFN.
+
+(* ------------------------------------------ pointwise equality of matrices as a setoid *)
+From Coq Require Import Setoid Morphisms.
+
+Section Peq.
+  Context {K : Type} {o : ops K} {SR : StarRing o}.
+  Definition peq (A B : @mat K) : Prop := forall i j, A i j = B i j.
+  Global Instance peq_equiv : Equivalence peq.
+  Proof.
+    split.
+    - intros A i j. reflexivity.
+    - intros A B H i j. symmetry. apply H.
+    - intros A B C H1 H2 i j. rewrite H1. apply H2.
+  Qed.
+  Global Instance mmul_proper d : Proper (peq ==> peq ==> peq) (mmul o d).
+  Proof. intros A A' HA B B' HB i j. unfold mmul. apply sumn_ext. intros k _. rewrite HA, HB. reflexivity. Qed.
+  Global Instance madj_proper : Proper (peq ==> peq) (madj o).
+  Proof. intros A A' HA i j. unfold madj. rewrite HA. reflexivity. Qed.
+  Global Instance trace_proper d : Proper (peq ==> eq) (trace o d).
+  Proof. intros A A' HA. unfold trace. apply sumn_ext. intros k _. apply HA. Qed.
+
+  Lemma peq_assoc d A B C : peq (mmul o d (mmul o d A B) C) (mmul o d A (mmul o d B C)).
+  Proof. intros i j. apply mmul_assoc. Qed.
+  Lemma peq_madj_mmul d A B : peq (madj o (mmul o d A B)) (mmul o d (madj o B) (madj o A)).
+  Proof. intros i j. apply madj_mmul. Qed.
+  Lemma peq_madj_madj A : peq (madj o (madj o A)) A.
+  Proof. intros i j. apply madj_madj. Qed.
+End Peq.
+
+Section Twirl.
+  Context {K : Type} {o : ops K} {ii hh : K} {TR : TomoRing o ii hh}.
+  Let R := sr_ring (o:=o).
+  Add Ring Ktw : R.
+  Local Notation "a + b" := (kadd o a b).
+  Local Notation "a * b" := (kmul o a b).
+  Local Notation one := (k1 o).
+  Local Notation zero := (k0 o).
+  Local Notation conj := (kconj o).
+  Local Notation sumn := (sumn o).
+  Local Notation suml := (suml o).
+  Local Notation pauli_mat := (pauli_mat o ii).
+  Local Notation hpow := (hpow (o:=o) (hh:=hh)).
+  Local Notation "A ** B" := (mmul o _ A B) (at level 40, left associativity).
+
+  (* tr(U u^+ U^+ V u V^+) = tr(u^+ M u M^+), M = U^+ V *)
+  Lemma gf_cyclic d (U V u : @mat K) :
+    trace o d (mmul o d (mmul o d (mmul o d U (madj o u)) (madj o U)) (out_rho o d V u))
+    = trace o d (mmul o d (mmul o d (mmul o d (madj o u) (mmul o d (madj o U) V)) u) (madj o (mmul o d (madj o U) V))).
+  Proof.
+    unfold out_rho.
+    (* left: U (u^+ (U^+ ((V u) V^+))) ; cyclic ; then reassociate *)
+    rewrite (trace_proper d _ _ (peq_assoc d (mmul o d U (madj o u)) (madj o U) (mmul o d (mmul o d V u) (madj o V)))).
+    rewrite (trace_proper d _ _ (peq_assoc d U (madj o u) _)).
+    rewrite (trace_cyclic (TR:=TR) d U).
+    (* now: tr((u^+ (U^+ ((V u) V^+))) U) *)
+    assert (E1 : peq (mmul o d (mmul o d (madj o u) (mmul o d (madj o U) (mmul o d (mmul o d V u) (madj o V)))) U)
+                     (mmul o d (madj o u) (mmul o d (madj o U) (mmul o d V (mmul o d u (mmul o d (madj o V) U)))))).
+    { rewrite peq_assoc. rewrite (peq_assoc d (madj o U)). rewrite (peq_assoc d (mmul o d V u)). rewrite (peq_assoc d V u). reflexivity. }
+    rewrite (trace_proper d _ _ E1).
+    assert (E2 : peq (mmul o d (mmul o d (mmul o d (madj o u) (mmul o d (madj o U) V)) u) (madj o (mmul o d (madj o U) V)))
+                     (mmul o d (madj o u) (mmul o d (madj o U) (mmul o d V (mmul o d u (mmul o d (madj o V) U)))))).
+    { rewrite peq_madj_mmul, peq_madj_madj. rewrite peq_assoc. rewrite (peq_assoc d (madj o u)). rewrite (peq_assoc d (madj o U) V). reflexivity. }
+    rewrite (trace_proper d _ _ E2). reflexivity.
+  Qed.
+
+  Lemma suml_pauli_keys (f : pauli -> K) : suml pauli_keys f = suml meas_keys f.
+  Proof. simpl. ring. Qed.
+
+  Definition pstrings (n : nat) : list mstr := strings pauli_keys n.
+
+  Lemma pauli_complete_p n : 1 <= n -> forall a b k l,
+    a < 2 ^ n -> b < 2 ^ n -> k < 2 ^ n -> l < 2 ^ n ->
+    suml (pstrings n) (fun c => hpow n * (kfold o pauli_mat c a b * kfold o pauli_mat c l k)) = mid o a k * mid o b l.
+  Proof.
+    unfold pstrings.
+    induction n as [|n IH]; [lia|]. intros _ a b k l Ha Hb Hk Hl.
+    destruct (Nat.eq_dec n 0) as [->|Hn0].
+    - change (2 ^ 1) with 2 in *. rewrite strings_1. unfold singles.
+      rewrite suml_map, suml_pauli_keys, <- (comp1 (TR:=TR)) by assumption. apply suml_ext. intros g _. simpl. ring.
+    - rewrite strings_S by lia. rewrite suml_flat_map.
+      rewrite (suml_ext _ _ (fun c : mstr => suml pauli_keys (fun g =>
+        (hpow n * (kfold o pauli_mat c (a / 2) (b / 2) * kfold o pauli_mat c (l / 2) (k / 2))) *
+        ((hh * hh) * (pauli_mat g (a mod 2) (b mod 2) * pauli_mat g (l mod 2) (k mod 2)))))).
+      + rewrite suml_pair_mul.
+        rewrite (IH ltac:(lia) (a / 2)%nat (b / 2)%nat (k / 2)%nat (l / 2)%nat) by (apply half_index_lt; assumption).
+        rewrite suml_pauli_keys, (comp1 (TR:=TR)) by (apply Nat.mod_upper_bound; lia).
+        rewrite <- (mid_split (o:=o) a k), <- (mid_split (o:=o) b l). ring.
+      + intros c Hc. apply strings_length_elem in Hc; [|lia].
+        rewrite suml_map. apply suml_ext. intros g _.
+        rewrite !(kfold_snoc (TR:=TR)) by (rewrite Hc; assumption). simpl TomoStateP.hpow. ring.
+  Qed.
+
+  Lemma twirl_entry n a b p m : 1 <= n -> a < 2 ^ n -> b < 2 ^ n -> p < 2 ^ n -> m < 2 ^ n ->
+    suml (pstrings n) (fun c => conj (kfold o pauli_mat c b a) * kfold o pauli_mat c p m)
+    = pow2 o n * (mid o a m * mid o b p).
+  Proof.
+    intros Hn Ha Hb Hp Hm. rewrite <- (pauli_complete_p n Hn a b m p) by assumption.
+    rewrite <- suml_mul_l. apply suml_ext. intros c Hc.
+    unfold pstrings in Hc. apply strings_length_elem in Hc; [|exact Hn].
+    pose proof (kfold_herm (TR:=TR) pauli_mat c (pauli_herm (TR:=TR))) as H. rewrite Hc in H.
+    rewrite (H a b Ha Hb : conj (kfold o pauli_mat c b a) = _).
+    transitivity ((pow2 o n * hpow n) * (kfold o pauli_mat c a b * kfold o pauli_mat c p m)); [|ring].
+    rewrite (pow2_hpow (TR:=TR)). ring.
+  Qed.
+
+  (* Pauli twirl: sum_c P_c^+ M P_c = 2^n tr(M) 1 *)
+  Lemma pauli_twirl n (M : @mat K) a m : 1 <= n -> a < 2 ^ n -> m < 2 ^ n ->
+    suml (pstrings n) (fun c => mmul o (2 ^ n) (mmul o (2 ^ n) (madj o (kfold o pauli_mat c)) M) (kfold o pauli_mat c) a m)
+    = pow2 o n * trace o (2 ^ n) M * mid o a m.
+  Proof.
+    intros Hn Ha Hm. unfold mmul, madj.
+    rewrite suml_sumn_swap.
+    rewrite (sumn_ext _ _ (fun p => pow2 o n * mid o a m * M p p)).
+    - rewrite sumn_mul_l. unfold trace. ring.
+    - intros p Hp.
+      rewrite (suml_ext _ _ (fun c => sumn (2 ^ n) (fun b => M b p * (conj (kfold o pauli_mat c b a) * kfold o pauli_mat c p m)))).
+      2:{ intros c _. rewrite <- sumn_mul_r. apply sumn_ext. intros b _. ring. }
+      rewrite suml_sumn_swap.
+      rewrite (sumn_ext _ _ (fun b => mid o b p * (M b p * (pow2 o n * mid o a m)))).
+      2:{ intros b Hb. rewrite suml_mul_l, twirl_entry by assumption. ring. }
+      rewrite (sumn_single (2 ^ n) p); try assumption.
+      + unfold mid at 1. rewrite Nat.eqb_refl. ring.
+      + intros k _ Hk. unfold mid at 1. apply Nat.eqb_neq in Hk. rewrite Hk. ring.
+  Qed.
+
+  Lemma twirl_total n (M : @mat K) : 1 <= n ->
+    suml (pstrings n) (fun c => trace o (2 ^ n)
+        (mmul o (2 ^ n) (mmul o (2 ^ n) (mmul o (2 ^ n) (madj o (kfold o pauli_mat c)) M) (kfold o pauli_mat c)) (madj o M)))
+    = pow2 o n * (trace o (2 ^ n) M * conj (trace o (2 ^ n) M)).
+  Proof.
+    intros Hn. unfold trace at 1. unfold mmul at 1.
+    rewrite suml_sumn_swap.
+    rewrite (sumn_ext _ _ (fun a => pow2 o n * trace o (2 ^ n) M * conj (M a a))).
+    - rewrite sumn_mul_l. unfold trace at 3. rewrite sumn_conj. ring.
+    - intros a Ha. rewrite suml_sumn_swap.
+      rewrite (sumn_ext _ _ (fun m => mid o a m * (pow2 o n * trace o (2 ^ n) M * madj o M m a))).
+      2:{ intros m Hm. rewrite suml_mul_r, pauli_twirl by assumption. ring. }
+      rewrite (sumn_single (2 ^ n) a); try assumption.
+      + unfold mid. rewrite Nat.eqb_refl. unfold madj. ring.
+      + intros k _ Hk. unfold mid. apply Nat.eqb_neq in Hk. rewrite Nat.eqb_sym, Hk. ring.
+  Qed.
+End Twirl.
+
+Section GFMain.
+  Context {K : Type} {o : ops K} {ii hh : K} {TR : TomoRing o ii hh}.
+  Let R := sr_ring (o:=o).
+  Add Ring Kgm : R.
+  Local Notation "a + b" := (kadd o a b).
+  Local Notation "a * b" := (kmul o a b).
+  Local Notation one := (k1 o).
+  Local Notation zero := (k0 o).
+  Local Notation conj := (kconj o).
+  Local Notation sumn := (sumn o).
+  Local Notation suml := (suml o).
+  Local Notation pauli_mat := (pauli_mat o ii).
+  Local Notation rho_mat := (rho_mat o ii).
+  Local Notation hpow := (hpow (o:=o) (hh:=hh)).
+  Local Notation isn n := (istrings li_inputs n).
+
+  Lemma sum4_rot d (f : nat -> nat -> nat -> nat -> K) :
+    sumn d (fun k => sumn d (fun l => sumn d (fun m => sumn d (fun p => f k l m p))))
+    = sumn d (fun p => sumn d (fun m => sumn d (fun k => sumn d (fun l => f k l m p)))).
+  Proof.
+    transitivity (sumn d (fun k => sumn d (fun l => sumn d (fun p => sumn d (fun m => f k l m p))))).
+    { apply sumn_ext; intros k _; apply sumn_ext; intros l _. apply sumn_swap. }
+    transitivity (sumn d (fun k => sumn d (fun p => sumn d (fun l => sumn d (fun m => f k l m p))))).
+    { apply sumn_ext; intros k _. apply (sumn_swap d d (fun l p => sumn d (fun m => f k l m p))). }
+    rewrite (sumn_swap d d (fun k p => sumn d (fun l => sumn d (fun m => f k l m p)))).
+    apply sumn_ext; intros p _.
+    transitivity (sumn d (fun k => sumn d (fun m => sumn d (fun l => f k l m p)))).
+    { apply sumn_ext; intros k _. apply (sumn_swap d d (fun l m => f k l m p)). }
+    apply (sumn_swap d d (fun k m => sumn d (fun l => f k l m p))).
+  Qed.
+
+  Definition Wm (d : nat) (A V : @mat K) (p m : nat) : K :=
+    sumn d (fun k => sumn d (fun l => A k l * V l p * conj (V k m))).
+
+  (* tr(A V rho V^+) is linear in rho *)
+  Lemma gf_lin d (A V rho : @mat K) :
+    trace o d (mmul o d A (out_rho o d V rho)) = sumn d (fun p => sumn d (fun m => Wm d A V p m * rho p m)).
+  Proof.
+    unfold trace, out_rho, mmul, madj, Wm.
+    transitivity (sumn d (fun k => sumn d (fun l => sumn d (fun m => sumn d (fun p =>
+                    A k l * V l p * conj (V k m) * rho p m))))).
+    - apply sumn_ext; intros k _. apply sumn_ext; intros l _. rewrite <- sumn_mul_l.
+      apply sumn_ext; intros m _.
+      transitivity ((A k l * conj (V k m)) * sumn d (fun p => V l p * rho p m)); [ring|].
+      rewrite <- sumn_mul_l. apply sumn_ext; intros p _. ring.
+    - rewrite sum4_rot. apply sumn_ext; intros p _. apply sumn_ext; intros m _.
+      rewrite <- sumn_mul_r. apply sumn_ext; intros k _. rewrite <- sumn_mul_r. reflexivity.
+  Qed.
+
+  Lemma ofnat_add a b : ofnat o (a + b)%nat = ofnat o a + ofnat o b.
+  Proof. induction a as [|a IH]; simpl; [ring|]. unfold ofnat in *. simpl. rewrite IH. ring. Qed.
+  Lemma ofnat_pow2 n : ofnat o (2 ^ n) = pow2 o n.
+  Proof.
+    induction n as [|n IH]; [unfold ofnat; simpl; ring|].
+    rewrite Nat.pow_succ_r'. replace (2 * 2 ^ n)%nat with (2 ^ n + 2 ^ n)%nat by lia.
+    rewrite ofnat_add, IH. simpl. unfold two. ring.
+  Qed.
+
+  (* GateFidelity.process for every n >= 1, every target matrix U *)
+  Theorem gate_fidelity_formula_n n solve (U V : @mat K) req inv :
+    1 <= n -> pinv_contract (o:=o) solve -> lunit o (2 ^ n) V -> Permutation req (req_canonical n false) ->
+    (ofnat o (2 ^ n) + one) * inv = one ->
+    gf_process o ii solve n req (process_ideal o ii hh n V (isn n) req) U
+    = Ok ((trace o (2 ^ n) (mmul o (2 ^ n) (madj o U) V) * conj (trace o (2 ^ n) (mmul o (2 ^ n) (madj o U) V)) + ofnat o (2 ^ n)) *
+          kinv o (ofnat o (2 ^ n) * (ofnat o (2 ^ n) + one))).
+  Proof.
+    intros Hn Hs HV Hp Hinv. unfold gf_process, process_ideal.
+    rewrite (run_required_family (fun i s => ideal_data o ii hh n s (out_rho o (2 ^ n) V (in_rho o ii hh i)))) by (try exact Hn; exact Hp).
+    cbn [bind].
+    match goal with |- context [mapM ?f (isn n)] =>
+      destruct (mapM_exists f (fun i Ri => meq (2 ^ n) Ri (out_rho o (2 ^ n) V (kfold o rho_mat i))) (isn n) [] (mid o))
+        as [Rs [ERs [LRs PRs]]] end.
+    { intros i Hi.
+      rewrite (results_of_input_family_n (fun i s => ideal_data o ii hh n s (out_rho o (2 ^ n) V (in_rho o ii hh i))))
+        by first [exact Hi | apply istrings_nodup; [exact Hn|exact li_inputs_nodup]].
+      pose proof (istrings_length_elem li_inputs n i Hn Hi) as Li.
+      destruct (density_ideal (TR:=TR) n (out_rho o (2 ^ n) V (in_rho o ii hh i))) as [Ri [E M]]; [exact Hn| |].
+      - rewrite out_rho_trace by exact HV. rewrite <- Li. apply in_rho_trace.
+      - exists Ri. split; [exact E|]. eapply meq_trans; [exact M|]. apply out_rho_compat. rewrite <- Li. apply in_rho_spec. }
+    rewrite ERs. cbn [bind]. f_equal.
+    set (M := mmul o (2 ^ n) (madj o U) V).
+    set (t := trace o (2 ^ n)%nat M).
+    (* the double sum *)
+    match goal with |- (?tot + _) * _ = _ => assert (Et : tot = pow2 o n * (t * conj t)) end.
+    { unfold alpha_mat. rewrite suml_combine_map_self. unfold u_basis. rewrite suml_map. cbn [fst snd].
+      unfold t. rewrite <- (twirl_total (TR:=TR) n M Hn). apply suml_ext. intros c Hc.
+      unfold M. rewrite <- (gf_cyclic (TR:=TR) (2 ^ n)%nat U V (kfold o pauli_mat c)).
+      set (u := kfold o pauli_mat c). set (A := mmul o (2 ^ n)%nat (mmul o (2 ^ n)%nat U (madj o u)) (madj o U)).
+      rewrite (suml_combine_seq Rs (mid o)). cbn [fst snd]. rewrite LRs, (isn_length (TR:=TR) n Hn).
+      transitivity (sumn (4 ^ n) (fun j => alpha_n (TR:=TR) n u j *
+                      sumn (2 ^ n)%nat (fun p => sumn (2 ^ n)%nat (fun m => Wm (2 ^ n)%nat A V p m * kfold o rho_mat (nth j (isn n) []) p m)))).
+      { apply sumn_ext. intros j Hj. rewrite Nat.add_0_l.
+        rewrite (alpha_contract (TR:=TR) n solve u j Hn Hs Hj). f_equal.
+        rewrite <- gf_lin. apply trace_compat. apply mmul_compat; [apply meq_refl|].
+        apply PRs. rewrite (isn_length (TR:=TR) n Hn). exact Hj. }
+      rewrite gf_lin.
+      rewrite (sumn_ext _ _ (fun j => sumn (2 ^ n)%nat (fun p => sumn (2 ^ n)%nat (fun m =>
+                 Wm (2 ^ n)%nat A V p m * (kfold o rho_mat (nth j (isn n) []) p m * alpha_n (TR:=TR) n u j))))).
+      2:{ intros j _. rewrite <- sumn_mul_l. apply sumn_ext; intros p _. rewrite <- sumn_mul_l.
+          apply sumn_ext; intros m _. ring. }
+      rewrite (sumn_swap (4 ^ n) (2 ^ n)%nat (fun j p => sumn (2 ^ n)%nat (fun m => Wm (2 ^ n)%nat A V p m * (kfold o rho_mat (nth j (isn n) []) p m * alpha_n (TR:=TR) n u j)))).
+      apply sumn_ext. intros p Hp'.
+      rewrite (sumn_swap (4 ^ n) (2 ^ n)%nat (fun j m => Wm (2 ^ n)%nat A V p m * (kfold o rho_mat (nth j (isn n) []) p m * alpha_n (TR:=TR) n u j))).
+      apply sumn_ext. intros m Hm.
+      rewrite sumn_mul_l. f_equal.
+      assert (Hx : (p * (2 ^ n)%nat + m < 2 ^ n * 2 ^ n)%nat) by (pose proof (pow2_pos n); nia).
+      pose proof (alpha_n_solves (TR:=TR) n u (p * (2 ^ n)%nat + m)%nat Hn Hx) as HA.
+      unfold vec in HA at 2.  destruct (div_mod_block' (2 ^ n)%nat p m Hm) as [E1 E2]. rewrite E1, E2 in HA.
+      rewrite <- HA. apply sumn_ext. intros j Hj.
+      rewrite (basis_vectors_nth (TR:=TR) n _ j Hj Hn). unfold vec. rewrite E1, E2. reflexivity. }
+    rewrite Et. rewrite ofnat_pow2 in *.
+    assert (K2 : kinv o (pow2 o n * pow2 o n * (pow2 o n + one)) = hpow n * hpow n * inv).
+    { apply ui_inv. transitivity ((pow2 o n * hpow n) * (pow2 o n * hpow n) * ((pow2 o n + one) * inv)); [ring|].
+      rewrite (pow2_hpow (TR:=TR)), Hinv. ring. }
+    assert (K1 : kinv o (pow2 o n * (pow2 o n + one)) = hpow n * inv).
+    { apply ui_inv. transitivity ((pow2 o n * hpow n) * ((pow2 o n + one) * inv)); [ring|].
+      rewrite (pow2_hpow (TR:=TR)), Hinv. ring. }
+    rewrite K1, K2.
+    transitivity ((pow2 o n * hpow n) * ((t * conj t + pow2 o n) * (hpow n * inv))); [ring|].
+    rewrite (pow2_hpow (TR:=TR)). ring.
+  Qed.
+
+  (* target = the gate itself: one *)
+  Corollary gate_fidelity_same_n n solve (V : @mat K) req inv :
+    1 <= n -> pinv_contract (o:=o) solve -> unitary o (2 ^ n) V -> Permutation req (req_canonical n false) ->
+    (ofnat o (2 ^ n) + one) * inv = one ->
+    gf_process o ii solve n req (process_ideal o ii hh n V (isn n) req) V = Ok one.
+  Proof.
+    intros Hn Hs [HV _] Hp Hinv. rewrite (gate_fidelity_formula_n n solve V V req inv Hn Hs HV Hp Hinv). f_equal.
+    assert (Et : trace o (2 ^ n) (mmul o (2 ^ n) (madj o V) V) = pow2 o n).
+    { rewrite (trace_compat _ _ _ HV). unfold trace.
+      rewrite (sumn_ext _ _ (fun _ => one)) by (intros k _; unfold mid; rewrite Nat.eqb_refl; reflexivity).
+      rewrite (sumn_const (TR:=TR)). ring. }
+    rewrite Et, ofnat_pow2 in *.
+    assert (K1 : kinv o (pow2 o n * (pow2 o n + one)) = hpow n * inv).
+    { apply ui_inv. transitivity ((pow2 o n * hpow n) * ((pow2 o n + one) * inv)); [ring|].
+      rewrite (pow2_hpow (TR:=TR)), Hinv. ring. }
+    assert (Cp : conj (pow2 o n) = pow2 o n).
+    { clear. induction n as [|n IH]; simpl; [apply sr_conj_1|]. unfold two. rewrite sr_conj_mul, sr_conj_add, sr_conj_1, IH. reflexivity. }
+    rewrite K1, Cp.
+    transitivity ((pow2 o n * hpow n) * ((pow2 o n + one) * inv)); [ring|].
+    rewrite (pow2_hpow (TR:=TR)), Hinv. ring.
+  Qed.
+End GFMain.
